@@ -141,6 +141,9 @@ pub struct Pair {
     pub s: Vec<Row1>,
     pub nested_dst: bool,
     pub null_img: V,
+    /// image of a null row that is expressed as a valid key referring to a NULL dictionary value: the value
+    /// array is cast first, so the row follows the value type's rule ([NULL] for value -> list targets)
+    pub null_img_value: V,
 }
 
 #[derive(Debug, Clone)]
@@ -261,7 +264,7 @@ impl Pair {
                 }
             })
             .collect();
-        Pair { gi, gj, nested_dst: nested_target(&dst), null_img: null_image(&src, &dst), src, dst, letters, s }
+        Pair { gi, gj, nested_dst: nested_target(&dst), null_img: null_image(&src, &dst), null_img_value: null_image(through_encoding(&src), &dst), src, dst, letters, s }
     }
 
     pub fn column(&self, codes: &[i32]) -> Vec<V> {
@@ -286,7 +289,7 @@ impl Pair {
             .iter()
             .map(|c| {
                 if *c < 0 {
-                    Some(self.null_img.clone())
+                    Some(if layout.null_is_dictionary_value() { self.null_img_value.clone() } else { self.null_img.clone() })
                 } else {
                     match &self.s[*c as usize] {
                         Row1::Ok(w, _) => Some(w.clone()),
@@ -762,7 +765,8 @@ pub fn run_pair(gi: usize, gj: usize, g: &[DataType], nmax: usize, full_upto: us
             for f in fc {
                 emit(st, f, "column", codes, Layout::Compact);
             }
-            for layout in [Layout::Sliced, Layout::Garbage, Layout::Truncated] {
+            let dict_src = matches!(p.src, DataType::Dictionary(_, _));
+            for layout in [Layout::Sliced, Layout::Garbage, Layout::Truncated].into_iter().chain(DICT_LAYOUTS.into_iter().filter(|_| dict_src)) {
                 let fs = p.eval_column(codes, layout);
                 n_eval += 2;
                 for f in p.classify(fs, compact_clean, layout) {
@@ -788,7 +792,7 @@ pub fn run(ctx: &Ctx, st: &mut Stats) {
     let nmax = ctx.pick(3, 5);
     let full_upto = ctx.pick(2, 3);
     let cap = letter_cap(ctx.quick());
-    st.extra.insert("matrix_bounds".into(), json!({"max_column_length": nmax, "all_letters_up_to_length": full_upto, "letter_cap": cap, "layouts": ["compact", "sliced", "garbage-under-nulls"], "safe": [true, false]}));
+    st.extra.insert("matrix_bounds".into(), json!({"max_column_length": nmax, "all_letters_up_to_length": full_upto, "letter_cap": cap, "layouts": ["compact", "sliced", "garbage-under-nulls", "truncated"], "dictionary_source_layouts": ["dict-unreferenced-values", "dict-null-value", "dict-unreferenced-values+null-value"], "safe": [true, false]}));
     st.extra.insert("grid_types".into(), json!(g.iter().map(|d| d.to_string()).collect::<Vec<_>>()));
     st.extra.insert("grid_pairs".into(), json!(n * n));
     let r = par_for(ctx, "matrix", n * n, 4, |idx, st| {
